@@ -66,7 +66,7 @@ def factor_table():
     global _factors
     if _factors is None:
         path = os.path.join(REPO, 'athlib', 'wma', 'wma-athlons-data.json')
-        with open(path) as f:
+        with open(path, encoding='utf-8') as f:
             data = json.load(f, parse_float=Decimal, parse_int=Decimal)
         ages = [int(a) for a in data['ages']]
         t = {}
